@@ -14,21 +14,37 @@ import (
 
 func stockSizes(g *vlib.G) []int {
 	if g.Thorough() {
-		return []int{0, 1, 2, 3, 5, 31, 32, 33, 63, 64, 65, 96, 127, 128, 129, 130, 193}
+		return []int{0, 1, 2, 3, 5, 31, 32, 33, 63, 64, 65, 95, 96, 97, 127, 128, 129, 130, 161, 193}
 	}
-	return []int{31, 32, 33, 63, 64, 65}
+	return []int{31, 32, 33, 63, 64, 65, 127, 128, 129, 130}
+}
+
+// zeroColFams: one exactly singular family per listed column: with the stock block size 64 the zero
+// pivot lies in the first, second or third block column of Dgetrf (and at their first and last columns).
+func zeroColFams(cols ...int) []fam {
+	var fs []fam
+	for _, j := range cols {
+		j := j
+		fs = append(fs, fam{fmt.Sprintf("zerocol%d", j), genZeroCol(j), func(m, n int) bool { return j < imin(m, n) }, false})
+	}
+	return fs
 }
 
 func genStockLU(g *vlib.G) {
 	sizes := stockSizes(g)
-	fams := pickFams(generalFams(200, false), "dd", "had", "rowgraded", "duprow", "zerocol100")
+	fams := pickFams(generalFams(200, false), "dd", "had", "rowgraded", "duprow", "signmix", "cluster")
+	fams = append(fams, zeroColFams(0, 33, 63, 64, 65, 100, 127, 128, 129, 192)...)
 	if !g.Thorough() {
-		fams = pickFams(generalFams(66, false), "dd", "had", "rowgraded", "zerocol33")
+		fams = pickFams(generalFams(66, false), "dd", "had", "rowgraded", "cluster")
+		fams = append(fams, zeroColFams(0, 33, 63, 64, 65, 100, 127, 128, 129)...)
 	}
 	for _, m := range sizes {
 		for _, n := range sizes {
 			for _, f := range fams {
 				m, n, f := m, n, f
+				if j, ok := posFam(f.name); ok && j >= imin(m, n) {
+					continue
+				}
 				g.Case(fmt.Sprintf("stock Dgetrf m=%d n=%d fam=%s", m, n, f.name), func(t *vlib.T) {
 					defer seamOff()
 					seamOff()
@@ -81,8 +97,8 @@ func genStockLU(g *vlib.G) {
 						if hasNaN(inv) {
 							continue
 						}
-						res := norm1(sub(mul(a, inv), eye(n)))
-						ck.ratio("Dgetri |A*inv-I|/(n eps |A||inv|)", res/(float64(n)*eps*norm1(a)*norm1(inv)))
+						res := norm1(sub(mul(inv, a), eye(n))) // left residual, see lu.go
+						ck.ratio("Dgetri |inv*A-I|/(n eps |A||inv|)", res/(float64(n)*eps*norm1(a)*norm1(inv)))
 						if k == 0 {
 							refInv = inv
 						} else if f.well {
@@ -120,14 +136,23 @@ func genStockLU(g *vlib.G) {
 
 func genStockChol(g *vlib.G) {
 	sizes := stockSizes(g)
-	fams := pickSFams(symFams(200, false), "spd", "spdgraded", "tri21", "negdiag100", "negdiag0", "negdiag199")
-	if !g.Thorough() {
-		fams = pickSFams(symFams(66, false), "spd", "spdgraded", "negdiag33", "negdiag65")
+	fams := pickSFams(symFams(200, false), "spd", "spdgraded", "tri21")
+	for _, k := range []int{0, 33, 63, 64, 65, 100, 127, 128, 129, 192} {
+		k := k
+		if !g.Thorough() && k == 192 {
+			continue
+		}
+		fams = append(fams,
+			sfam{fmt.Sprintf("negdiag%d", k), genNegDiag(k), false, func(n int) bool { return k < n }, false},
+			sfam{fmt.Sprintf("ldlneg%d", k), genLDLNeg(k, 2), false, func(n int) bool { return k < n }, false})
 	}
 	for _, n := range sizes {
 		for _, f := range fams {
 			for _, uplo := range uplos {
 				n, f, uplo := n, f, uplo
+				if k, ok := posFam(f.name); ok && k >= n {
+					continue
+				}
 				g.Case(fmt.Sprintf("stock Dpotrf uplo=%s n=%d fam=%s", uploName(uplo), n, f.name), func(t *vlib.T) {
 					defer seamOff()
 					seamOff()
@@ -214,12 +239,19 @@ func genStockQR(g *vlib.G) {
 		}
 	}
 	if !g.Thorough() {
-		// quick: B32 u B64, plus a few shapes beyond the crossover 128 so that the stock blocked QR runs at all
-		shapes = append(shapes, [2]int{129, 129}, [2]int{130, 65}, [2]int{65, 130}, [2]int{161, 129})
+		// quick: (B32 u B64)^2 and a selection of shapes around and beyond the crossover 128
+		shapes = shapes[:0]
+		for _, m := range []int{31, 32, 33, 63, 64, 65} {
+			for _, n := range []int{31, 32, 33, 63, 64, 65} {
+				shapes = append(shapes, [2]int{m, n})
+			}
+		}
+		shapes = append(shapes, [2]int{127, 127}, [2]int{128, 128}, [2]int{129, 129}, [2]int{130, 130}, [2]int{130, 65}, [2]int{65, 130},
+			[2]int{129, 33}, [2]int{33, 129}, [2]int{161, 129}, [2]int{129, 161}, [2]int{193, 130})
 	}
-	fams := pickFams(generalFams(200, false), "dd", "had", "rowgraded", "zerocol100", "sparse")
+	fams := pickFams(generalFams(200, false), "dd", "had", "rowgraded", "zerocol100", "sparse", "cluster", "signmix")
 	if !g.Thorough() {
-		fams = pickFams(generalFams(66, false), "dd", "had", "sparse")
+		fams = pickFams(generalFams(66, false), "dd", "had", "sparse", "cluster")
 	}
 	kinds := []fkind{kindQR, kindLQ}
 	if g.Thorough() {
@@ -229,7 +261,7 @@ func genStockQR(g *vlib.G) {
 		for _, sh := range shapes {
 			for _, f := range fams {
 				kd, m, n, f := kd, sh[0], sh[1], f
-				if f.name == "sparse" && g.Thorough() && !(sparseSize[m] && sparseSize[n]) {
+				if (f.name == "sparse" || f.name == "signmix") && g.Thorough() && !(sparseSize[m] && sparseSize[n]) {
 					continue // the sparse family fails (known Dlarft defect) and every failure is re-run four times: keep it small
 				}
 				g.Case(fmt.Sprintf("stock %s m=%d n=%d fam=%s", kd.name, m, n, f.name), func(t *vlib.T) {
@@ -399,12 +431,10 @@ func genStockQR(g *vlib.G) {
 	}
 }
 
-// genStockMisc (thorough): the remaining blocked routines at their stock block sizes.
+// genStockMisc: the remaining blocked routines at their stock block sizes.
 func genStockMisc(g *vlib.G) {
-	if !g.Thorough() {
-		return
-	}
-	sizes := []int{63, 64, 65, 129, 193}
+	sizes := vlib.Pick(g, []int{65, 129}, []int{63, 64, 65, 129, 193})
+	genStockQp3(g)
 	for _, n := range sizes {
 		for _, uplo := range uplos {
 			n, uplo := n, uplo
@@ -479,28 +509,7 @@ func genStockMisc(g *vlib.G) {
 		}
 		for _, m := range []int{65, 130} {
 			n, m := n, m
-			g.Case(fmt.Sprintf("stock Dgeqp3 m=%d n=%d", m, n), func(t *vlib.T) {
-				ck := &checker{t: t}
-				t.Nontrivial()
-				a := genColGraded(m, n)
-				jp := make([]int, n)
-				for j := range jp {
-					jp[j] = -1
-				}
-				query := workQuery(ck, "Dgeqp3", 3*n+1, false, func(work []float64) {
-					impl.Dgeqp3(m, n, place(a, n, nil).d, n, append([]int(nil), jp...), poisonVec(imin(m, n)), work, -1)
-				})
-				paths := ""
-				for _, lwork := range uniq(3*n+1, 3*n+1, 2*n+(n+1)*16, query, query+5) {
-					ck.ctx = fmt.Sprintf("lwork=%d", lwork)
-					r := runGeqp3(ck, "Dgeqp3", a, n+3, jp, lwork)
-					qp3Oracle(ck, "Dgeqp3", a, jp, r)
-					paths += "+" + r.path
-				}
-				ck.ctx = ""
-				t.Outcome("qp3" + paths)
-			})
-			for _, trans := range transes {
+			for _, trans := range allTrans {
 				trans := trans
 				g.Case(fmt.Sprintf("stock Dgels trans=%s m=%d n=%d", transName(trans), m, n), func(t *vlib.T) {
 					ck := &checker{t: t}
@@ -522,7 +531,7 @@ func genStockMisc(g *vlib.G) {
 					paths := ""
 					for _, lwork := range uniq(minw, minw, query, query+5, mn+4096+33*imax(mn, nrhs)) {
 						ck.ctx = fmt.Sprintf("lwork=%d", lwork)
-						r := runGels(ck, trans, a, b, n+3, nrhs+3, lwork)
+						r := runGels(ck, trans, a, b, n+3, nrhs+5, lwork)
 						if !r.ok {
 							ck.failf("Dgels returned false")
 							continue
@@ -532,6 +541,55 @@ func genStockMisc(g *vlib.G) {
 					}
 					ck.ctx = ""
 					t.Outcome("gels" + paths)
+				})
+			}
+		}
+	}
+}
+
+// genStockQp3: Dgeqp3 with the stock parameters (nb=32, nx=128) on shapes whose free part exceeds 128+32
+// columns, so that Dlaqps factors full blocks (jb=32), a partial block (1 < jb < 32) and leaves the rest to
+// Dlaqp2; free, partly fixed and rank-deficient inputs; lwork at the minimum, at a reduced block size, at
+// the optimum and next to it.
+func genStockQp3(g *vlib.G) {
+	shapes := [][2]int{{131, 131}, {170, 170}, {180, 165}, {165, 200}}
+	if g.Thorough() {
+		shapes = append(shapes, [2]int{129, 129}, [2]int{130, 140}, [2]int{161, 161}, [2]int{193, 193}, [2]int{200, 170}, [2]int{225, 193})
+	}
+	fams := pickFams(generalFams(230, false), "colgraded", "dd", "cluster", "rank1", "zerocol115")
+	for _, sh := range shapes {
+		for _, f := range fams {
+			for _, pat := range []string{"free", "mixed"} {
+				m, n, f, pat := sh[0], sh[1], f, pat
+				if pat == "mixed" && f.name != "dd" && f.name != "colgraded" {
+					continue
+				}
+				g.Case(fmt.Sprintf("stock Dgeqp3 m=%d n=%d fam=%s jpvt=%s", m, n, f.name, pat), func(t *vlib.T) {
+					ck := &checker{t: t}
+					t.Nontrivial()
+					a := f.gen(m, n)
+					jp := make([]int, n)
+					for j := range jp {
+						jp[j] = -1
+						if pat == "mixed" && j%7 == 3 {
+							jp[j] = 0
+						}
+					}
+					query := workQuery(ck, "Dgeqp3", 3*n+1, false, func(work []float64) {
+						impl.Dgeqp3(m, n, place(a, n, nil).d, n, append([]int(nil), jp...), poisonVec(imin(m, n)), work, -1)
+					})
+					paths := map[string]int{}
+					for idx, lwork := range uniq(3*n+1, 3*n+1, 2*n+(n+1)*16, 2*n+(n+1)*16-1, query-1, query, query+5) {
+						lda := n + (idx % 2 * 3)
+						ck.ctx = fmt.Sprintf("lwork=%d lda=%d", lwork, lda)
+						r := runGeqp3(ck, "Dgeqp3", a, lda, jp, lwork)
+						qp3Oracle(ck, "Dgeqp3", a, jp, r)
+						if !r.failed {
+							paths[r.path]++
+						}
+					}
+					ck.ctx = ""
+					t.Outcome(fmt.Sprintf("qp3-%s laqps=%d laqp2=%d", pat, paths["laqps"], paths["laqp2"]))
 				})
 			}
 		}
